@@ -285,13 +285,34 @@ func (e *Eng) execAssign(st *State, s *ast.AssignStmt) *State {
 	if st.dead {
 		return nil
 	}
-	// assignment anchors: at `assign <lhs text>` requires E   (rhs0 = the value being stored)
+	// assignment anchors: at `assign <lhs text>` requires E   (rhs0 = the value being stored; for `assign
+	// base[*]` additionally idx = the index value). Evaluated before the store, so names denote old values;
+	// a variable being defined by := denotes its initial value.
 	if e.con != nil && len(e.con.At) > 0 && len(s.Lhs) == 1 {
-		key := "assign " + e.srcFull(s.Lhs[0])
-		if cls, ok := e.con.At[key]; ok {
+		keys := []string{"assign " + e.srcFull(s.Lhs[0])}
+		var idxVal *Val
+		if ix, ok := ast.Unparen(s.Lhs[0]).(*ast.IndexExpr); ok {
+			if id, ok := ast.Unparen(ix.X).(*ast.Ident); ok {
+				keys = append(keys, "assign "+id.Name+"[*]")
+				idxVal = e.eval(st, ix.Index)
+			}
+		}
+		for _, key := range keys {
+			cls, ok := e.con.At[key]
+			if !ok {
+				continue
+			}
 			e.con.atUsed[key] = true
 			env := e.specEnvFromState(st)
 			env["rhs0"] = vals[0]
+			if idxVal != nil {
+				env["idx"] = idxVal
+			}
+			if id, ok := s.Lhs[0].(*ast.Ident); ok && s.Tok == token.DEFINE {
+				if _, has := env[id.Name]; !has || e.info.Defs[id] != nil {
+					env[id.Name] = vals[0]
+				}
+			}
 			for _, cl := range cls {
 				switch cl.Kind {
 				case "requires":
@@ -553,6 +574,23 @@ func (e *Eng) ghostsAssignedIn(n ast.Node) map[types.Object]bool {
 		return out
 	}
 	ast.Inspect(n, func(x ast.Node) bool {
+		if as, ok := x.(*ast.AssignStmt); ok && len(as.Lhs) == 1 {
+			keys := []string{"assign " + e.srcFull(as.Lhs[0])}
+			if ix, ok := ast.Unparen(as.Lhs[0]).(*ast.IndexExpr); ok {
+				if id, ok := ast.Unparen(ix.X).(*ast.Ident); ok {
+					keys = append(keys, "assign "+id.Name+"[*]")
+				}
+			}
+			for _, k := range keys {
+				for _, cl := range e.con.At[k] {
+					if cl.Kind == "ghost" {
+						if g, ok := e.ghosts[cl.Name]; ok {
+							out[g] = true
+						}
+					}
+				}
+			}
+		}
 		if c, ok := x.(*ast.CallExpr); ok {
 			t := e.srcFull(c)
 			keys := []string{t, "defer " + t}
@@ -963,6 +1001,7 @@ func (e *Eng) execGo(st *State, s *ast.GoStmt) *State {
 	ord := e.goOrd
 	child := st.clone()
 	child.defers = nil
+	child.counters = map[string]string{} // calls(...) inside a goroutine count from its start
 	before := len(e.exits)
 	e.inGo++
 	gout, _ := e.execClosure(child, lit, args)
